@@ -94,6 +94,111 @@ func witnesses(thorough bool) []Scenario {
 		{K: "new", C: 1, O: 2}, {K: "send", C: 1, O: 2, Hi: true, Mode: -1},
 		{K: "reply", N: 0}, {K: "wait", C: 1, O: 2, Timed: true},
 	}})
+	out = append(out, extWitnesses()...)
+	return out
+}
+
+// scenarios of the extension: several subscriptions of one client, the sentinel look-alike,
+// overlapping Close calls, topics created while / after Queue.Close runs.
+func extWitnesses() []Scenario {
+	var out []Scenario
+	// finding 3: client 0 subscribes to t0 and t1 and is closed: only t1 (the last Sub) is closed.
+	// A request to t0 is accepted and its wait blocks for ever.
+	out = append(out, Scenario{Kind: "witness-two-topics", Hcap: 2, Lcap: 2, NTopics: 2, NClients: 2, Ops: []Op{
+		{K: "sub", C: 0, T: 0}, {K: "sub", C: 0, T: 1},
+		{K: "new", C: 1, T: 0, O: 1}, {K: "send", C: 1, O: 1, Hi: true, Mode: -1},
+		{K: "new", C: 1, T: 1, O: 2}, {K: "send", C: 1, O: 2, Hi: false, Mode: -1},
+		{K: "recv", C: 0}, {K: "recv", C: 0}, {K: "recv", C: 0},
+		{K: "reply", N: 0}, {K: "wait", C: 1, O: 1, Timed: false},
+		{K: "close", C: 0},
+		{K: "new", C: 1, T: 1, O: 3}, {K: "send", C: 1, O: 3, Hi: true, Mode: -1},
+		{K: "new", C: 1, T: 0, O: 4}, {K: "send", C: 1, O: 4, Hi: true, Mode: -1},
+		{K: "wait", C: 1, O: 4, Timed: true},
+		{K: "wait", C: 1, O: 4, Timed: false},
+	}})
+	// the same shape inside the guard: both Subs name the same topic, or one Sub only
+	out = append(out, Scenario{Kind: "witness-one-topic-twice", Hcap: 2, Lcap: 2, NTopics: 2, NClients: 2, Ops: []Op{
+		{K: "sub", C: 0, T: 1}, {K: "sub", C: 0, T: 1},
+		{K: "new", C: 1, T: 1, O: 1}, {K: "send", C: 1, O: 1, Hi: true, Mode: -1},
+		{K: "recv", C: 0}, {K: "reply", N: 0}, {K: "wait", C: 1, O: 1, Timed: false},
+		{K: "close", C: 0},
+		{K: "new", C: 1, T: 1, O: 2}, {K: "send", C: 1, O: 2, Hi: true, Mode: -1},
+		{K: "wait", C: 1, O: 2, Timed: false},
+	}})
+	// two subscriptions at work: both pumps deliver into the one recv channel
+	out = append(out, Scenario{Kind: "witness-two-topics-roundtrip", Hcap: 2, Lcap: 2, NTopics: 2, NClients: 2, Ops: []Op{
+		{K: "sub", C: 0, T: 0}, {K: "sub", C: 0, T: 1},
+		{K: "new", C: 1, T: 1, O: 1}, {K: "send", C: 1, O: 1, Hi: true, Mode: -1},
+		{K: "recv", C: 0}, {K: "reply", N: 0}, {K: "wait", C: 1, O: 1, Timed: false}, {K: "free", C: 1, O: 1},
+		{K: "new", C: 1, T: 0, O: 2}, {K: "send", C: 1, O: 2, Hi: false, Mode: -1},
+		{K: "recv", C: 0}, {K: "reply", N: 1}, {K: "wait", C: 1, O: 2, Timed: true},
+		{K: "recv", C: 0},
+	}})
+	// finding 4: the subscriber does not read (recv full, the pump holds one more), the first
+	// Close waits in wg.Wait(), a second Close of the same client panics in close(client.done)
+	{
+		ops := []Op{{K: "sub", C: 0, T: 0}}
+		for i := 1; i <= 6; i++ {
+			ops = append(ops, Op{K: "new", C: 1, T: 0, O: i}, Op{K: "send", C: 1, O: i, Hi: true, Mode: 0})
+		}
+		ops = append(ops, Op{K: "close", C: 0}, Op{K: "close", C: 0, Over: true},
+			Op{K: "recv", C: 0}, Op{K: "recv", C: 0}, Op{K: "close", C: 0},
+			Op{K: "new", C: 0, T: 0, O: 7}, Op{K: "send", C: 0, O: 7, Hi: true, Mode: -1})
+		out = append(out, Scenario{Kind: "witness-overlapping-close", Hcap: 2, Lcap: 2, NTopics: 1, NClients: 2, Ops: ops})
+	}
+	// finding 5: a message with ID 0, Ty 0, nil Data stops the pump; the next request is lost
+	out = append(out, Scenario{Kind: "witness-lookalike", Hcap: 2, Lcap: 2, NTopics: 1, NClients: 2, Ops: []Op{
+		{K: "sub", C: 0, T: 0},
+		{K: "new", C: 1, T: 0, O: 1}, {K: "send", C: 1, O: 1, Hi: true, Mode: -1},
+		{K: "recv", C: 0}, {K: "reply", N: 0}, {K: "wait", C: 1, O: 1, Timed: false},
+		{K: "new", C: 1, T: 0, O: 2, Raw: true}, {K: "send", C: 1, O: 2, Hi: true, Mode: -1},
+		{K: "new", C: 1, T: 0, O: 3}, {K: "send", C: 1, O: 3, Hi: true, Mode: -1},
+		{K: "recv", C: 0},
+		{K: "wait", C: 1, O: 3, Timed: true},
+		{K: "wait", C: 1, O: 3, Timed: false},
+	}})
+	out = append(out, Scenario{Kind: "witness-lookalike", Hcap: 3, Lcap: 3, NTopics: 1, NClients: 2, Ops: []Op{
+		{K: "sub", C: 0, T: 0},
+		{K: "new", C: 1, T: 0, O: 1, Raw: true}, {K: "send", C: 1, O: 1, Hi: false, Mode: 0},
+		{K: "new", C: 1, T: 0, O: 2}, {K: "send", C: 1, O: 2, Hi: false, Mode: -1},
+		{K: "recv", C: 0},
+	}})
+	// finding 6, no race needed: a Wait that names a topic for the first time after Queue.Close
+	// makes chanSub create it, open, inside the closed queue, and blocks for ever
+	out = append(out, Scenario{Kind: "witness-late-topic", Hcap: 2, Lcap: 2, NTopics: 1, NClients: 2, Fresh: 1, Ops: []Op{
+		{K: "sub", C: 0, T: 0},
+		{K: "new", C: 1, T: 0, O: 1}, {K: "send", C: 1, O: 1, Hi: true, Mode: -1},
+		{K: "new", C: 1, T: 1, O: 2},
+		{K: "closeq"},
+		{K: "wait", C: 1, O: 1, Timed: false},
+		{K: "send", C: 1, O: 2, Hi: true, Mode: -1},
+		{K: "wait", C: 1, O: 2, Timed: true},
+		{K: "wait", C: 1, O: 2, Timed: false},
+	}})
+	// finding 6, the race: a Send to a new topic while Queue.Close is inside its locked loop
+	for _, hi := range []bool{true, false} {
+		out = append(out, Scenario{Kind: "witness-race-queue-close", Hcap: 0, Lcap: 0, NTopics: 1, NClients: 2, Fresh: 1, Helper: 60000, Ops: []Op{
+			{K: "sub", C: 0, T: 0},
+			{K: "new", C: 1, T: 0, O: 1}, {K: "send", C: 1, O: 1, Hi: true, Mode: -1},
+			{K: "new", C: 1, T: 1, O: 2},
+			{K: "raceq", C: 1, O: 2, Hi: hi},
+			{K: "wait", C: 1, O: 1, Timed: false},
+			{K: "new", C: 1, T: 1, O: 3}, {K: "send", C: 1, O: 3, Hi: true, Mode: -1},
+			{K: "wait", C: 1, O: 2, Timed: true},
+			{K: "wait", C: 1, O: 2, Timed: false},
+		}})
+	}
+	// finding 6 with parked sends: 66 wait-forever sends to a new topic inside Queue.Close's
+	// window: 64 fill the new open topic, 2 park and are never woken (the queue is closed)
+	{
+		ops := []Op{{K: "sub", C: 0, T: 0}}
+		for i := 0; i < 66; i++ {
+			ops = append(ops, Op{K: "new", C: 1, T: 1, O: 10 + i})
+		}
+		ops = append(ops, Op{K: "raceq", C: 1, O: 10, N: 66},
+			Op{K: "new", C: 1, T: 1, O: 90}, Op{K: "send", C: 1, O: 90, Hi: true, Mode: -1})
+		out = append(out, Scenario{Kind: "witness-race-queue-close-park", Hcap: 0, Lcap: 0, NTopics: 1, NClients: 2, Fresh: 1, Helper: 60000, Ops: ops})
+	}
 	return out
 }
 
@@ -108,6 +213,18 @@ type gen struct {
 
 func newGen(sc Scenario, r *hlib.Rng) *gen {
 	g := &gen{sc: sc, r: r}
+	switch sc.Kind {
+	case "multisub":
+		// client 0 subscribes to both topics (t1 last); nobody else subscribes
+		g.queue = append(g.queue, Op{K: "sub", C: 0, T: 0}, Op{K: "sub", C: 0, T: 1})
+		g.subs = append(g.subs, 0)
+		return g
+	case "overlap":
+		// a subscriber that does not read: recv fills up, the pump parks with one more message
+		g.queue = append(g.queue, Op{K: "sub", C: 0, T: 0}, Op{K: "fill", C: 1, T: 0, N: 6})
+		g.subs = append(g.subs, 0)
+		return g
+	}
 	for t := 0; t < sc.NTopics && t < sc.NClients-1; t++ {
 		if r.Chance(5, 6) {
 			g.queue = append(g.queue, Op{K: "sub", C: t, T: t})
@@ -151,6 +268,9 @@ func (g *gen) next(e *exec, v *view) (Op, bool) {
 				mode = r.Intn(2)
 			}
 			g.queue = append(g.queue, Op{K: "send", C: c, O: g.slot, Hi: hi, Mode: mode})
+			if kind == "raw" && r.Chance(1, 5) {
+				return Op{K: "new", C: c, T: t, O: g.slot, Raw: true}, true
+			}
 			return Op{K: "new", C: c, T: t, O: g.slot, Plain: r.Chance(1, 6)}, true
 		case x < 54: // recv
 			if len(g.subs) == 0 {
@@ -191,11 +311,20 @@ func (g *gen) next(e *exec, v *view) (Op, bool) {
 			g.slot++
 			return Op{K: "new", C: r.Intn(g.sc.NClients), T: r.Intn(g.sc.NTopics), O: g.slot}, true
 		case x < 97: // close a client
-			if g.step < 5 {
+			if g.step < 5 && kind != "overlap" {
 				continue
 			}
 			// any client, subscribed or not (fixed finding 2: Close of a client that never
 			// subscribed used to do nothing)
+			if kind == "overlap" {
+				// mostly the subscriber; when its Close is still waiting, call Close again
+				c := 0
+				if r.Chance(1, 4) {
+					c = r.Intn(g.sc.NClients)
+				}
+				_, busy := e.closeCh[c]
+				return Op{K: "close", C: c, Over: busy}, true
+			}
 			return Op{K: "close", C: r.Intn(g.sc.NClients)}, true
 		default:
 			if g.step < 6 || v.qClose {
